@@ -116,3 +116,6 @@ func seq(lo, hi int) []int {
 	}
 	return r
 }
+
+// isF32 reports whether t is a 32-bit floating type (float32 or a named type over it).
+func isF32(t int) bool { return dyn.Types[t].Kind == dyn.Float && dyn.Types[t].Bits == 32 }
